@@ -305,10 +305,14 @@ def build(cfg, shared=None):
                 if gid is not None:
                     key = (gid, kind, a, bb)
                     if key not in shared:
-                        shared[key] = _make_prior(P, kind, a, bb).double()
+                        shared[key] = _make_prior(P, kind, a, bb)
+                        if not cfg.get("nocast"):   # (a dtype move re-ties a transformed prior's base distribution;
+                            shared[key] = shared[key].double()   #  `nocast` keeps the prior exactly as constructed)
                     prior_obj = shared[key]
                 else:
-                    prior_obj = _make_prior(P, kind, a, bb).double()
+                    prior_obj = _make_prior(P, kind, a, bb)
+                    if not cfg.get("nocast"):
+                        prior_obj = prior_obj.double()
                 mod.register_prior(pname, prior_obj, attr)
                 w.prior_objs.append(prior_obj)
                 w.prior_regs.append((id(mod), pname))
